@@ -378,7 +378,14 @@ func asTypeOfAttrExpr(attrs hcl.Attributes, bSchema *schema.BlockSchema) (cty.Ty
 		return cty.DynamicPseudoType, false
 	}
 
-	aSchema := bSchema.Body.Attributes[attrName]
+	if bSchema.Body == nil {
+		return cty.DynamicPseudoType, false
+	}
+	aSchema, ok := bSchema.Body.Attributes[attrName]
+	if !ok {
+		// the attribute the block takes its type from is not declared
+		return cty.DynamicPseudoType, false
+	}
 	_, ok = aSchema.Constraint.(schema.TypeDeclaration)
 	if !ok {
 		return cty.DynamicPseudoType, false
